@@ -35,11 +35,14 @@ Untruncated(ln, nd) == ln.cutoff0 /\ ln.cap >= nd /\ ~Degenerate(ln)
 \* boundary and route it through every bond of the chain ("long range bonds are handled by inserting identities"),
 \* the 'mps' sweep leaves it alone: the exact bond size of a periodic boundary is taken as the size the open chain
 \* needs (the product), and the wrap-around bond does not count for CapRespected.
-HandNeed(ln, g) == Need(g.edges, ln.blocks, ln.bonds) * MaxI(1, Need(g.edges, ln.blocks, ln.wbonds))
+\* nbonds (when recorded): the bonds from the boundary to the rest of the network, which compress_late=False also
+\* compresses when they exceed the cap: they count for the hypothesis as well.
+HandNeed(ln, g) == MaxI(Need(g.edges, ln.blocks, ln.bonds) * MaxI(1, Need(g.edges, ln.blocks, ln.wbonds)),
+                        IF Has(ln, "nbonds") THEN Need(g.edges, ln.blocks, ln.nbonds) ELSE 0)
 
 HandClauses(ln, z, g, nd) ==
   << <<"CapRespected", WithinCap(ln.bonds, ln.cap)>>,
-     <<"BoundaryPartition", BlocksDisjoint(ln.blocks)>>,
+     <<"BoundaryPartition", BlocksDisjoint(IF Has(ln, "nbound") THEN SubSeq(ln.blocks, 1, ln.nbound) ELSE ln.blocks)>>,
      <<"ExactWhenUntruncated", (Has(ln, "value") /\ Untruncated(ln, nd)) => (ln.ongrid /\ Close(ln.value, z))>> >>
 
 CompressClauses(ln) ==
